@@ -124,6 +124,10 @@ def check(run):
             J = obs['jac'][n]
             off = 0
             tol = 2e-5 * (1 + S)
+            if e_case['cls'] in ('range', 'mid'):
+                # errors that depend on positions only: second derivatives are bounded by 1/separation <= 1 (lattice separations are >= 1), so
+                # the truncation error of the 1e-6 forward difference is <= 5e-7 whatever the scale; rounding contributes ~1e-16*S/1e-6
+                tol = 1e-6 + 2e-9 * S
             run.count(key=(repr(c), n), nontrivial=True)
             for j, x in enumerate(e_case['vs']):
                 cd = B.CDIM[c['verts'][x - 1]['k']]
